@@ -162,3 +162,19 @@ func TestC13Sim(t *testing.T) {
 		}
 	})
 }
+
+func TestC01Sim(t *testing.T) {
+	vlib.SetRule("C01", "TestC01Sim", "simulated cluster histories with upstream connects/disconnects on several nodes, crashes, leaves, liveness evaluations and expiry; oracle after every step, for every node and endpoint: a routing lookup (asked repeatedly, map order varies) finds a server iff the node's routing table lists some other node as active with a positive count for it; non-trivial = some lookup had both a live and a left/unreachable holder of the same endpoint in the table")
+	p := &Profile{Prop: "C01", Oracles: map[string]bool{"C01": true}, MaxSteps: maxSteps(70, 150), Lifecycle: true,
+		Weights: map[string]int{"addConn": 14, "removeConn": 4, "upsert": 1, "delete": 1, "compact": 1, "crash": 4, "silence": 5, "liveness": 5, "leave": 2, "gossip": 14, "deliver": 18, "deliverAll": 4, "forge": 0}}
+	vlib.RunSync(t, "C01", func(c *vlib.Case) {
+		s := New(c, p)
+		n := steps(c, p)
+		for i := 0; i < n; i++ {
+			s.Step()
+		}
+		if s.sawDeadAndLiveHolder {
+			c.NonTrivial()
+		}
+	})
+}
